@@ -45,21 +45,23 @@ def stepLine (st : St) (line : String) : St × String :=
   | ["reset", c] => match c.toNat? with
     | some n => ({ cap := n, s := Store.empty }, "ok")
     | none => (st, "bad-op")
-  | ["get", ok, cn, sans] =>
-    match optName cn, parseSans sans with
-    | some c, some ss =>
+  | ["get", ok, cn, sans, org, crl] =>
+    match optName cn, parseSans sans, optName org, optName crl with
+    | some c, some ss, some og, some cr =>
       if ok = "0" ∨ ok = "1" then
-        let r := getCert st.cap (ok == "1") st.s c ss
-        -- for a generated certificate the model also predicts what the certificate carries (subject CN, SANs)
+        let r := getCert st.cap (ok == "1") st.s c ss og cr
+        -- for a generated certificate the model also predicts what the certificate carries
+        -- (subject CN, SANs, organization, CRL distribution point — those of the request that generated it)
         let cert (e : Entry) : String :=
           if e.custom then "" else " " ++ showName (subjectCn e.cn) ++ " " ++ showList (e.sans.map showSan)
+            ++ " " ++ showName e.org ++ " " ++ showName (certCrl e.crl)
         let out := match r.2 with
           | .hit e => showLab' e ++ " 0 " ++ tail r.1 ++ cert e
           | .fresh e => showLab' e ++ " 1 " ++ tail r.1 ++ cert e
           | .err => "err " ++ tail r.1
         ({ st with s := r.1 }, out)
       else (st, "bad-op")
-    | _, _ => (st, "bad-op")
+    | _, _, _, _ => (st, "bad-op")
   | ["add", id, cn, sans, names] =>
     match id.toNat?, optName cn, parseSans sans, parseNames names with
     | some i, some c, some ss, some ns =>
